@@ -324,3 +324,17 @@ Proof.
   - rewrite fold_first. simpl. unfold spec_first. apply fold_upd_first_z.
   - rewrite fold_last. simpl. unfold spec_last. apply fold_upd_last.
 Qed.
+
+(* ---------------------------------------------------------------- querier layer: no host is dropped *)
+Lemma querier_failed_reported l :
+  hosts_distinct (querier_replies l) → rows_wf (querier_replies l) →
+  let A := (aggregate (querier_replies l)).1 in
+  (∀ h, (h, Unconfigured) ∈ l → a_statuses A !! h = Some ("error"%string, ERR_UNCONFIGURED)) ∧
+  (∀ h msg, (h, Down msg) ∈ l → a_statuses A !! h = Some ("error"%string, msg)).
+Proof.
+  intros Hd Hwf A. destruct (union_sum _ Hd Hwf) as (_ & _ & _ & _ & H5 & _). split.
+  - intros h Hin. apply (H5 (querier_reply h Unconfigured) (ERR_UNCONFIGURED, None)); [|done].
+    apply elem_of_list_fmap. by exists (h, Unconfigured).
+  - intros h msg Hin. apply (H5 (querier_reply h (Down msg)) (msg, None)); [|done].
+    apply elem_of_list_fmap. by exists (h, Down msg).
+Qed.
